@@ -397,7 +397,8 @@ def real_params(G: Groups, base: str, cls: Any, feature: Any) -> Any:
     if base == "ScalingFeatureGroup":
         return [need(cls._extract_scaler_type(feature))]
     if base == "TextCleaningFeatureGroup":
-        return list(need(cls._extract_cleaning_operations(feature)))
+        ops = need(cls._extract_cleaning_operations(feature))
+        return sorted(ops, key=cjson) if isinstance(ops, (set, frozenset)) else list(ops)  # a set's iteration order is hash dependent
     if base == "NodeCentralityFeatureGroup":
         return [need(cls._extract_centrality_type(feature))]
     raise KeyError(base)
@@ -935,6 +936,9 @@ def run(ctx: Ctx) -> None:
             o = sorted(o["main"] + o["extras"], key=cjson)
         if r["op"] == "C16.extractSource" and isinstance(o, list):
             o = sorted(o)
+        if r["op"] == "C16.extractParams" and isinstance(o, list) and any(k == "cleaning_operations" and isinstance(v, dict) and v.get("$") in ("set", "fset")
+                                                                          for k, v in r["opts"]["group"] + r["opts"]["ctx"]):  # fmt: skip
+            o = sorted(o, key=cjson)
         ctx.case(s, r, True, op=r["op"].split(".")[1], outcome="err" if isinstance(i, dict) else str(i)[:5] if isinstance(i, (bool, str)) else "value")
         se = same_err(i, o)
         if se is None:
